@@ -41,6 +41,11 @@ void put(out_t& out, const std::vector<int64_t>& v)
     out.ilist(v);
 }
 
+bool same_indices(const indices_t& a, const indices_t& b)
+{
+    return a.size() == b.size() && std::equal(std::begin(a), std::end(a), std::begin(b));
+}
+
 bool same_splits(const splitter_t::splits_t& a, const splitter_t::splits_t& b)
 {
     if (a.size() != b.size())
@@ -158,15 +163,18 @@ std::string vh::execute(toks_t& toks, std::string& aug)
             throw bad_op("count (assert)");
         }
         auto copy = samples;
-        std::shuffle(copy.begin(), copy.end(), make_rng(seed));
+        auto rrng = make_rng(seed); // the generator after the reproduced standard-library call
+        std::shuffle(copy.begin(), copy.end(), rrng);
         put(extra, copy);
         aug += " " + extra.str();
 
-        const auto idx = to_indices(samples);
-        auto       rng = make_rng(seed);
-        const auto sel = sample_without_replacement(idx, count, rng);
+        const auto idx  = to_indices(samples);
+        auto       rng  = make_rng(seed);
+        const auto sel  = sample_without_replacement(idx, count, rng);
+        auto       rng2 = make_rng(seed);
+        const auto sel2 = sample_without_replacement(idx, count, rng2);
         out_t      out;
-        out << "ok";
+        out << ((same_indices(sel, sel2) && rng == rng2 && rng == rrng) ? "ok" : "not-a-function-of-the-generator");
         put(out, sel);
         return out.str();
     }
@@ -180,19 +188,21 @@ std::string vh::execute(toks_t& toks, std::string& aug)
         {
             throw bad_op("count/samples (assert)");
         }
+        auto rrng = make_rng(seed); // the generator after the reproduced standard-library calls
         {
-            auto                 rng   = make_rng(seed);
             auto                 udist = make_udist<tensor_size_t>(0, static_cast<tensor_size_t>(samples.size()) - 1);
             std::vector<int64_t> draws(static_cast<size_t>(count));
-            std::generate(draws.begin(), draws.end(), [&]() { return udist(rng); });
+            std::generate(draws.begin(), draws.end(), [&]() { return udist(rrng); });
             put(extra, draws);
             aug += " " + extra.str();
         }
-        const auto idx = to_indices(samples);
-        auto       rng = make_rng(seed);
-        const auto sel = sample_with_replacement(idx, count, rng);
+        const auto idx  = to_indices(samples);
+        auto       rng  = make_rng(seed);
+        const auto sel  = sample_with_replacement(idx, count, rng);
+        auto       rng2 = make_rng(seed);
+        const auto sel2 = sample_with_replacement(idx, count, rng2);
         out_t      out;
-        out << "ok";
+        out << ((same_indices(sel, sel2) && rng == rng2 && rng == rrng) ? "ok" : "not-a-function-of-the-generator");
         put(out, sel);
         return out.str();
     }
@@ -203,17 +213,18 @@ std::string vh::execute(toks_t& toks, std::string& aug)
         const auto weights = toks.fs();
         const auto count   = toks.i64();
         const auto seed    = static_cast<uint64_t>(toks.i64());
-        if (count < 0 || samples.empty() || weights.size() != samples.size() ||
-            *std::min_element(weights.begin(), weights.end()) < 0.0 ||
-            *std::max_element(weights.begin(), weights.end()) <= 0.0)
+        // the two asserts of the weighted overload are compiled out (NDEBUG). Negative, NaN, all-zero weights and a weight
+        // vector shorter than the samples have a defined behaviour (libstdc++'s discrete_distribution as coded) and are
+        // executed; weights longer than the samples would read outside the tensor and are refused here.
+        if (count < 0 || samples.empty() || weights.size() > samples.size())
         {
-            throw bad_op("weights (assert)");
+            throw bad_op("weights (reads outside)");
         }
+        auto rrng = make_rng(seed); // the generator after the reproduced standard-library calls
         {
-            auto rng   = make_rng(seed);
             auto wdist = std::discrete_distribution<tensor_size_t>(weights.begin(), weights.end());
             std::vector<int64_t> draws(static_cast<size_t>(count));
-            std::generate(draws.begin(), draws.end(), [&]() { return wdist(rng); });
+            std::generate(draws.begin(), draws.end(), [&]() { return wdist(rrng); });
             put(extra, draws);
             aug += " " + extra.str();
         }
@@ -225,8 +236,12 @@ std::string vh::execute(toks_t& toks, std::string& aug)
         }
         auto       rng = make_rng(seed);
         const auto sel = sample_with_replacement(idx, w, count, rng);
+        // a function of the generator state: the same state again gives the same answer, and the generator has advanced
+        // exactly as the reproduced standard-library calls did
+        auto       rng2 = make_rng(seed);
+        const auto sel2 = sample_with_replacement(idx, w, count, rng2);
         out_t      out;
-        out << "ok";
+        out << ((same_indices(sel, sel2) && rng == rng2 && rng == rrng) ? "ok" : "not-a-function-of-the-generator");
         put(out, sel);
         return out.str();
     }
@@ -377,6 +392,301 @@ std::string vh::execute(toks_t& toks, std::string& aug)
         for (tensor_size_t i = 0; i < x.size(); ++i)
         {
             out << static_cast<double>(x(i));
+        }
+        return out.str();
+    }
+
+    if (op == "sampler")
+    {
+        // split sampler <mode> <samples> <seed> <ratio> <total> <gdim> <calls> (<values of the call: total*gdim>)^calls
+        // one gboost::sampler_t object, `calls` consecutive sample() calls, each with its own losses / gradients
+        // (errors_losses(1, i) = values[i*gdim], gradients(i, g, 0, 0) = values[i*gdim + g]); any value is allowed
+        // (zero, negative, NaN, infinite: the asserts are compiled out and the behaviour is defined)
+        const auto smode   = toks.s();
+        const auto mode    = to_mode(smode);
+        const auto samples = toks.ints();
+        const auto seed    = static_cast<uint64_t>(toks.i64());
+        const auto ratio   = toks.f();
+        const auto total   = toks.i64();
+        const auto gdim    = toks.i64();
+        const auto calls   = toks.i64();
+        if (calls < 0 || calls > 16 || total < 1 || gdim < 1 || !(ratio > 0.0) || !(ratio <= 1.0))
+        {
+            throw bad_op("sampler arguments");
+        }
+        if (samples.empty() && mode != gboost_subsample::off && mode != gboost_subsample::subsample)
+        {
+            throw bad_op("no sample to draw from (reads outside)");
+        }
+        for (const auto s : samples)
+        {
+            if (s < 0 || s >= total)
+            {
+                throw bad_op("sample out of the tensors");
+            }
+        }
+        std::vector<tensor2d_t> losses;
+        std::vector<tensor4d_t> grads;
+        for (int64_t call = 0; call < calls; ++call)
+        {
+            const auto values = toks.fs();
+            if (static_cast<int64_t>(values.size()) != total * gdim)
+            {
+                throw bad_op("values");
+            }
+            tensor2d_t errors_losses(2, total);
+            tensor4d_t gradients(total, gdim, 1, 1);
+            errors_losses.zero();
+            for (int64_t i = 0; i < total; ++i)
+            {
+                errors_losses(1, i) = values[static_cast<size_t>(i * gdim)];
+                for (int64_t g = 0; g < gdim; ++g)
+                {
+                    gradients(i, g, 0, 0) = values[static_cast<size_t>(i * gdim + g)];
+                }
+            }
+            losses.push_back(errors_losses);
+            grads.push_back(gradients);
+        }
+        const auto idx   = to_indices(samples);
+        const auto n     = static_cast<int64_t>(samples.size());
+        const auto count = static_cast<int64_t>(ratio * static_cast<double>(n));
+
+        // the answers of the two standard-library calls that stay oracles of the model, one generator for all calls;
+        // the weighted modes need none (the model computes the draws from the seed)
+        {
+            auto rng = make_rng(seed);
+            for (int64_t call = 0; call < calls; ++call)
+            {
+                if (mode == gboost_subsample::subsample)
+                {
+                    auto copy = samples;
+                    std::shuffle(copy.begin(), copy.end(), rng);
+                    put(extra, copy);
+                }
+                else if (mode == gboost_subsample::bootstrap)
+                {
+                    auto                 udist = make_udist<tensor_size_t>(0, n - 1);
+                    std::vector<int64_t> draws(static_cast<size_t>(count));
+                    std::generate(draws.begin(), draws.end(), [&]() { return udist(rng); });
+                    put(extra, draws);
+                }
+            }
+            if (!extra.str().empty())
+            {
+                aug += " " + extra.str();
+            }
+        }
+
+        // the object under test, a second one built from the same arguments (it must give the same answers: the object is a
+        // function of its constructor arguments and its call history), and a copy taken after the first call, which must
+        // continue exactly like the original
+        auto sampler = gboost::sampler_t{idx, mode, seed, ratio};
+        auto twin    = gboost::sampler_t{idx, mode, seed, ratio};
+        bool same    = true;
+        std::vector<indices_t> answers;
+        for (int64_t call = 0; call < calls; ++call)
+        {
+            answers.push_back(sampler.sample(losses[static_cast<size_t>(call)], grads[static_cast<size_t>(call)]));
+        }
+        for (int64_t call = 0; call < calls; ++call)
+        {
+            const auto again = twin.sample(losses[static_cast<size_t>(call)], grads[static_cast<size_t>(call)]);
+            same             = same && same_indices(again, answers[static_cast<size_t>(call)]);
+        }
+        out_t out;
+        out << "ok" << (same ? 1 : 0) << static_cast<long long>(calls);
+        for (const auto& a : answers)
+        {
+            put(out, a);
+        }
+        return out.str();
+    }
+
+    if (op == "hist")
+    {
+        // split hist <kfold|random> <K> cmd_1 … cmd_K   with cmd = set <slot> <folds|seed|train_per> <v> | split <slot> <samples>
+        // | clone <slot>. Slot 0 is a fresh object of the factory, every clone appends a slot. For every `split` the harness
+        // appends the shuffles a NEW generator make_rng(seed) produces (seed and folds read back from the object), and
+        // compares the answer with the split of a fresh factory object given the same parameter values.
+        const auto skind = toks.s();
+        if (skind != "kfold" && skind != "random")
+        {
+            throw bad_op("kind");
+        }
+        const auto id = std::string(skind == "kfold" ? "k-fold" : "random");
+        const auto K  = toks.i64();
+        if (K < 0 || K > 64)
+        {
+            throw bad_op("K");
+        }
+        std::vector<rsplitter_t> objs;
+        objs.push_back(splitter_t::all().get(id));
+        out_t out;
+        out << "ok" << static_cast<long long>(K);
+        for (int64_t k = 0; k < K; ++k)
+        {
+            const auto cmd  = toks.s();
+            const auto slot = toks.i64();
+            if (cmd == "set")
+            {
+                const auto name  = toks.s();
+                const auto value = toks.i64();
+                const auto pname = name == "folds" ? "splitter::folds" :
+                                   name == "seed"  ? "splitter::seed" :
+                                   name == "train_per" ? "splitter::random::train_per" : "";
+                if (pname[0] == 0)
+                {
+                    throw bad_op("parameter name");
+                }
+                if (slot < 0 || slot >= static_cast<int64_t>(objs.size()))
+                {
+                    out << "bad-slot";
+                    continue;
+                }
+                try
+                {
+                    objs[static_cast<size_t>(slot)]->parameter(pname) = value;
+                    out << "ok";
+                }
+                catch (const std::runtime_error&)
+                {
+                    out << "refused";
+                }
+            }
+            else if (cmd == "clone")
+            {
+                if (slot < 0 || slot >= static_cast<int64_t>(objs.size()))
+                {
+                    out << "bad-slot";
+                    continue;
+                }
+                objs.push_back(objs[static_cast<size_t>(slot)]->clone());
+                out << "ok";
+            }
+            else if (cmd == "split")
+            {
+                const auto samples = toks.ints();
+                if (slot < 0 || slot >= static_cast<int64_t>(objs.size()))
+                {
+                    out << "bad-slot";
+                    continue;
+                }
+                const auto& obj   = *objs[static_cast<size_t>(slot)];
+                const auto  seed  = obj.parameter("splitter::seed").value<uint64_t>();
+                const auto  folds = obj.parameter("splitter::folds").value<int64_t>();
+                // the record for the model
+                {
+                    auto copy = samples;
+                    auto rng  = make_rng(seed);
+                    const auto nperm = (skind == "kfold") ? int64_t{1} : folds;
+                    extra << static_cast<long long>(nperm);
+                    for (int64_t f = 0; f < nperm; ++f)
+                    {
+                        std::shuffle(copy.begin(), copy.end(), rng);
+                        put(extra, copy);
+                    }
+                }
+                const auto idx    = to_indices(samples);
+                const auto splits = obj.split(idx);
+                // a fresh object with the same parameter values
+                const auto tp    = (skind == "random") ? obj.parameter("splitter::random::train_per").value<int64_t>() : 0;
+                const auto fresh = make_splitter(id, folds, static_cast<int64_t>(seed), tp);
+                const auto same  = same_splits(splits, fresh->split(idx));
+                out << "S" << (same ? 1 : 0) << static_cast<long long>(splits.size());
+                for (const auto& [train, valid] : splits)
+                {
+                    put(out, train);
+                    put(out, valid);
+                }
+            }
+            else
+            {
+                throw bad_op("history command");
+            }
+        }
+        if (!extra.str().empty())
+        {
+            aug += " " + extra.str();
+        }
+        return out.str();
+    }
+
+    if (op == "unseeded")
+    {
+        // the overloads without a generator argument: make_rng() reads std::random_device, so there is nothing to hand to
+        // the model; the answer goes to the property oracle only (the set structure must hold for every stream)
+        const auto which = toks.s();
+        out_t      out;
+        out << "ok";
+        if (which == "without")
+        {
+            const auto samples = toks.ints();
+            const auto count   = toks.i64();
+            if (count < 0 || count > static_cast<int64_t>(samples.size()))
+            {
+                throw bad_op("count (assert)");
+            }
+            put(out, sample_without_replacement(to_indices(samples), count));
+        }
+        else if (which == "with")
+        {
+            const auto samples = toks.ints();
+            const auto count   = toks.i64();
+            if (count < 0 || samples.empty())
+            {
+                throw bad_op("count/samples (assert)");
+            }
+            put(out, sample_with_replacement(to_indices(samples), count));
+        }
+        else if (which == "wwith")
+        {
+            const auto samples = toks.ints();
+            const auto weights = toks.fs();
+            const auto count   = toks.i64();
+            if (count < 0 || samples.empty() || weights.size() != samples.size())
+            {
+                throw bad_op("weights");
+            }
+            tensor1d_t w(static_cast<tensor_size_t>(weights.size()));
+            for (size_t i = 0; i < weights.size(); ++i)
+            {
+                w(static_cast<tensor_size_t>(i)) = weights[i];
+            }
+            put(out, sample_with_replacement(to_indices(samples), w, count));
+        }
+        else if (which == "ball" || which == "ballmap")
+        {
+            const auto x0v    = toks.fs();
+            const auto radius = toks.f();
+            if (x0v.empty() || !(radius > 0.0))
+            {
+                throw bad_op("ball arguments (assert)");
+            }
+            const auto n = static_cast<tensor_size_t>(x0v.size());
+            vector_t   x0(n);
+            for (tensor_size_t i = 0; i < n; ++i)
+            {
+                x0(i) = x0v[static_cast<size_t>(i)];
+            }
+            vector_t x(n);
+            if (which == "ball")
+            {
+                x = sample_from_ball(x0, radius);
+            }
+            else
+            {
+                sample_from_ball(x0, radius, x);
+            }
+            out << static_cast<long long>(x.size());
+            for (tensor_size_t i = 0; i < x.size(); ++i)
+            {
+                out << static_cast<double>(x(i));
+            }
+        }
+        else
+        {
+            throw bad_op("unseeded overload");
         }
         return out.str();
     }
